@@ -4,7 +4,7 @@
    websocketTransport.Close), Gen/WsConst.v (tables and constants translated from the Go source on every run).
    Specifications: Model/WsHandshakeSpec.v (RFC 6455 4.2.1, RFC 7230 lists, RFC 4648), Model/WsCloseSpec.v
    (RFC 6455 7.4), Model/WsUtf8.v (RFC 3629 grammar). *)
-From Coq Require Import List NArith Bool.
+From Coq Require Import String List NArith Bool.
 From Cfg Require Import Gen.WsConst Model.WsUtf8 Model.WsHandshake Model.WsHandshakeSpec Model.WsClose Model.WsCloseSpec
      Proofs.WsHandshakeA Proofs.WsHandshakeB Proofs.WsClose.
 Import ListNotations.
@@ -190,25 +190,25 @@ Print Assumptions C31_first_wins_code0_refuted.
 (* ------------------------------------------------------------------ non-vacuity *)
 
 Definition ex_req : request :=
-  mkRequest 1 s_GET (bytes_of_string "server.example.com") [bytes_of_string "keep-alive, Upgrade"] [s_websocket] [s_13]
-            [bytes_of_string "dGhlIHNhbXBsZSBub25jZQ=="] [bytes_of_string "http://server.example.com"]
-            [bytes_of_string "chat, centrifuge-json"] [bytes_of_string "permessage-deflate; client_max_window_bits"] [].
+  mkRequest 1 s_GET (bytes_of_string "server.example.com"%string) [bytes_of_string "keep-alive, Upgrade"%string] [s_websocket] [s_13]
+            [bytes_of_string "dGhlIHNhbXBsZSBub25jZQ=="%string] [bytes_of_string "http://server.example.com"%string]
+            [bytes_of_string "chat, centrifuge-json"%string] [bytes_of_string "permessage-deflate; client_max_window_bits"%string] [].
 Definition ex_cfg : config :=
-  mkConfig (Some [bytes_of_string "centrifuge-json"; bytes_of_string "centrifuge-protobuf"]) true false None false None.
-Definition ex_host (_ : bytes) : option bytes := Some (bytes_of_string "SERVER.example.com").
+  mkConfig (Some [bytes_of_string "centrifuge-json"%string; bytes_of_string "centrifuge-protobuf"%string]) true false None false None.
+Definition ex_host (_ : bytes) : option bytes := Some (bytes_of_string "SERVER.example.com"%string).
 
 Example C31_ex_accept :
   upgrade ex_host ex_cfg ex_req
-  = Accept (Some (bytes_of_string "dGhlIHNhbXBsZSBub25jZQ==")) (bytes_of_string "centrifuge-json") true
+  = Accept (Some (bytes_of_string "dGhlIHNhbXBsZSBub25jZQ=="%string)) (bytes_of_string "centrifuge-json"%string) true
   /\ wellformed ex_req = true /\ valid_upgrade ex_cfg ex_req = true /\ config_sane ex_cfg = true.
 Proof. vm_compute. auto. Qed.
 
 Example C31_ex_reject_origin :
-  upgrade (fun _ => Some (bytes_of_string "evil.example.com")) ex_cfg ex_req = Reject 403.
+  upgrade (fun _ => Some (bytes_of_string "evil.example.com"%string)) ex_cfg ex_req = Reject 403.
 Proof. vm_compute. reflexivity. Qed.
 
 Example C31_ex_reject_version :
-  upgrade ex_host ex_cfg (mkRequest 1 s_GET [] [s_upgrade] [s_websocket] [bytes_of_string "8"] [bytes_of_string "dGhlIHNhbXBsZSBub25jZQ=="] [] [] [] [])
+  upgrade ex_host ex_cfg (mkRequest 1 s_GET [] [s_upgrade] [s_websocket] [bytes_of_string "8"%string] [bytes_of_string "dGhlIHNhbXBsZSBub25jZQ=="%string] [] [] [] [])
   = Reject 400.
 Proof. vm_compute. reflexivity. Qed.
 
